@@ -39,6 +39,13 @@ def program_family(run: Run):
     half of the full-alphabet size-4 programs; thorough: all of size <=4 + size-5 programs containing a while and an await."""
     for size in (1, 2, 3):
         yield from coro.programs(size)
+    # awaits on coroutines made by one factory (same code object, different captured signal) and on a signal returned by
+    # a function with a side effect: every program of size <=3 (thorough <=4) over these forms that uses at least one of them
+    for size in ((1, 2, 3, 4) if run.thorough else (1, 2, 3)):
+        for p in coro.programs(size, conds=("i0",), awaits=("w0", "w1", "arm", "i1"), calls=(0,)):
+            r = repr(p)
+            if "'w0'" in r or "'w1'" in r or "'arm'" in r:
+                yield p
     if not run.thorough:
         # every structural shape of size 4 over a reduced alphabet (one condition, two awaits, one sub-coroutine) ...
         seen = set()
